@@ -232,44 +232,196 @@ def gen_components(rng):
             "init": [[u, str(p)] for u, p in zip(starts, ps)], "gamma": rng.choice(["9/10", "19/20"])}
 
 
+def _dy(rng, lo, hi, den=4):
+    """a dyadic rational in [lo, hi]"""
+    return F(rng.randint(lo * den, hi * den), den)
+
+
+def gen_large_costs(rng):
+    """undiscounted, NO terminal state, state-dependent action sets, per-step costs of large magnitude
+    (level 100 .. 1000, dyadic): a recurrent core whose every action costs about -level per step, and
+    1-2 pure entry states (never re-entered) that lack at least one action id used elsewhere.
+    Gains and bias look-aheads are far below any finite stand-in for "minus infinity"."""
+    level = rng.choice([100, 400, 800, 900, 1000])
+    nA = rng.randint(2, 3)
+    ncore = rng.randint(1, 3)
+    nentry = rng.randint(1, 2)
+    n = ncore + nentry
+    core, entry = list(range(ncore)), list(range(ncore, n))
+    actions, trans, reward = [None] * n, {}, {}
+
+    def row(s, a, succ):
+        ps = gen_mdp._split_prob(rng, len(succ))
+        trans["%d,%d" % (s, a)] = [[ns, str(p)] for ns, p in zip(succ, ps)]
+        for ns in succ:
+            reward["%d,%d,%d" % (s, a, ns)] = str(-_dy(rng, int(level * .8), int(level * 1.2)))
+    for s in core:
+        actions[s] = sorted(rng.sample(range(nA), rng.randint(1, nA)))
+        for a in actions[s]:
+            row(s, a, rng.sample(core, rng.randint(1, len(core))))
+    for s in entry:
+        k = rng.randint(1, nA - 1)                      # lacks at least one action id
+        actions[s] = sorted(rng.sample(range(nA), k))
+        for a in actions[s]:
+            pool = core + [x for x in entry if x < s]   # never back into itself: a pure entry state
+            row(s, a, rng.sample(pool, rng.randint(1, min(2, len(pool)))))
+    # make sure every action id is used by some state (else the id disappears from action_list)
+    used = {a for acts in actions for a in acts}
+    for a in range(nA):
+        if a not in used:
+            s = rng.choice(core)
+            actions[s] = sorted(actions[s] + [a])
+            row(s, a, rng.sample(core, rng.randint(1, len(core))))
+    ps = gen_mdp._split_prob(rng, len(entry))
+    return {"n": n, "nA": nA, "actions": actions, "trans": trans, "reward": reward, "absorbing": [False] * n,
+            "init": [[s, str(p)] for s, p in zip(entry, ps)], "gamma": "1"}
+
+
+# discount rates within 1e-5 of 1 (and one just outside), exact rationals
+BOUNDARY = ["1048575/1048576", "199999/200000", "131071/131072", "16383/16384"]
+
+
+def gen_episodic_near_one(rng, tier):
+    """EPISODIC problems with a discount rate within about 1e-5 of 1: a stochastic corridor of 8-24 cells
+    ending in a terminal state (forward with probability p, else stay / slip back), dyadic per-step costs
+    (sometimes of large magnitude).  Long horizons make the discounted optimum visibly different from the
+    undiscounted one ((1-gamma)*H^2/2*|cost|).  Choices, where present, have LARGE gaps (a second action
+    with the same row and a clearly worse cost) or are exact duplicates: no action-value gap lies inside
+    the improvement test's relative band, so values are judged at 1e-7 relative."""
+    L = rng.randint(8, 16 if tier == "quick" else 24)
+    nA = rng.randint(1, 2)
+    n = L + 1
+    cost = _dy(rng, 1, 8) if rng.random() < .7 else _dy(rng, 100, 1000)
+    actions, trans, reward = [None] * n, {}, {}
+    absorbing = [False] * L + [True]
+    for s in range(L):
+        p = F(rng.randint(1, 7), 8)
+        back = s - 1 if (s > 0 and rng.random() < .3) else s
+        row = [[s + 1, p], [back, 1 - p]]
+        c = cost * rng.choice([1, 1, 2]) if rng.random() < .2 else cost
+        actions[s] = [0]
+        trans["%d,0" % s] = [[ns, str(q)] for ns, q in row]
+        for ns, q in row:
+            reward["%d,0,%d" % (s, ns)] = str(-c)
+        if nA == 2 and rng.random() < .5:
+            actions[s] = [0, 1]
+            trans["%d,1" % s] = [[ns, str(q)] for ns, q in row]
+            worse = c if rng.random() < .3 else 2 * c        # exact duplicate, or clearly worse
+            for ns, q in row:
+                reward["%d,1,%d" % (s, ns)] = str(-worse)
+    actions[L] = [0]
+    trans["%d,0" % L] = [[L, "1"]]
+    return {"n": n, "nA": nA, "actions": actions, "trans": trans, "reward": reward, "absorbing": absorbing,
+            "init": [[0, "1"]], "gamma": rng.choice(BOUNDARY)}
+
+
+def perturb(rng, m):
+    """same states / actions / labels, perturbed transitions: probabilities turned to 0 (a successor
+    removed), from 0 (a leak to a new successor), or re-split -- changes the recurrent-class structure"""
+    import copy
+    b = copy.deepcopy(m)
+    rows = [k for k in b["trans"] if not b["absorbing"][int(k.split(",")[0])]]
+    for k in rng.sample(rows, min(len(rows), rng.randint(1, 3))):
+        s, a = map(int, k.split(","))
+        row = [[ns, F(p)] for ns, p in b["trans"][k] if F(p) != 0]
+        op = rng.choice(["leak", "leak", "drop", "resplit"])
+        succ = [ns for ns, _ in row]
+        others = [x for x in range(b["n"]) if x not in succ]
+        if op == "leak" and others:
+            j = max(range(len(row)), key=lambda i: row[i][1])
+            if row[j][1] > F(1, 8):
+                dp = F(rng.randint(1, int(row[j][1] * 8) - 1 if row[j][1] * 8 > 1 else 1), 8)
+                dp = min(dp, row[j][1] - F(1, 8))
+                if dp > 0:
+                    ns = rng.choice(others)
+                    row[j][1] -= dp
+                    row.append([ns, dp])
+                    r = F(rng.randint(-4, 4))
+                    if r != 0:
+                        b["reward"]["%d,%d,%d" % (s, a, ns)] = str(r)
+        elif op == "drop" and len(row) >= 2:
+            j = rng.randrange(len(row))
+            ns, p = row.pop(j)
+            row[rng.randrange(len(row))][1] += p
+            b["reward"].pop("%d,%d,%d" % (s, a, ns), None)
+        elif len(row) >= 2:
+            ps = gen_mdp._split_prob(rng, len(row))
+            row = [[ns, p] for (ns, _), p in zip(row, ps)]
+        b["trans"][k] = [[ns, str(p)] for ns, p in row]
+    return b
+
+
+def gen_sweep(rng, tier):
+    """multi-step scenario: ONE planner object plans on A, then B (A with perturbed transitions), then A
+    again (sometimes a further perturbation C): undiscounted, every state initial (so all problems of the
+    sweep have the same state list)"""
+    nmax = 5 if tier == "quick" else 7
+    base = rng.choice(["blocks", "recurrent", "farms"])
+    if base == "blocks":
+        a = gen_blocks(rng, nmax)
+    elif base == "farms":
+        a = gen_farms(rng)
+    else:
+        a = _either_sign(rng, nmax=nmax, amax=3, min_states=3, goal=False, implicit_absorbing=False)
+    if a["n"] <= 8:
+        ps = gen_mdp._split_prob(rng, a["n"])
+        a["init"] = [[s, str(p)] for s, p in zip(range(a["n"]), ps)]
+    b = perturb(rng, a)
+    more = [b, a] if rng.random() < .6 else [b, perturb(rng, b), a]
+    return a, more
+
+
 # 1 - 2^-10, 1 - 2^-14, 1 - 2^-17, 1 - 10^-6 (exact rationals to the model, nearest doubles to msdm)
 NEAR_ONE = ["1023/1024", "16383/16384", "131071/131072", "999999/1000000"]
 
 def gen_case(rng, tier):
     nmax = 6 if tier == "quick" else 8
     r = rng.random()
-    if r < .24:
+    more = None
+    if r < .20:
         kind = "discounted"
         m = gen_mdp.gen_mdp(rng, nmax=nmax, amax=3, gamma=rng.choice(["1/2", "9/10", "19/20"]))
-    elif r < .34:
+    elif r < .27:
         kind = "discounted-components"        # many disconnected components / paying self-loops, 5-8 states
         m = gen_components(rng)
-    elif r < .42:
+    elif r < .34:
         # continuing problems (no terminal states) with a discount rate very close to 1: |V*| ~ 1/(1-gamma)
         kind = "discounted-near-one"
         m = gen_mdp.gen_mdp(rng, nmax=4, amax=2, min_states=2, goal=False, implicit_absorbing=False,
                             gamma=rng.choice(NEAR_ONE))
-    elif r < .50:
+    elif r < .41:
+        kind = "discounted-episodic-near-one"  # long stochastic corridors, gamma within ~1e-5 of 1
+        m = gen_episodic_near_one(rng, tier)
+    elif r < .48:
         kind = "undisc-proper-nonpos"        # every policy reaches a terminal state
         m = gen_mdp.gen_mdp(rng, nmax=nmax, amax=3, gamma="1", proper=True)
-    elif r < .62:
+    elif r < .57:
         kind = "undisc-terminal-either-sign"  # terminal states exist but need not be reached
         m = _either_sign(rng, nmax=nmax, amax=3, min_states=2)
-    elif r < .74:
+    elif r < .66:
         kind = "undisc-recurrent"             # no explicit terminal states: unichain or multichain by chance
         m = _either_sign(rng, nmax=nmax, amax=3, min_states=2, goal=False)
-    elif r < .86:
+    elif r < .74:
         kind = "undisc-blocks"                # multichain by construction
         m = gen_blocks(rng, nmax)
-    else:
+    elif r < .84:
         kind = "undisc-farms"                 # gain-class choice with exact / near bias ties
         m = gen_farms(rng)
+    elif r < .92:
+        kind = "undisc-large-costs"           # costs ~ -1000 .. -100, state-dependent action sets, no terminal state
+        m = gen_large_costs(rng)
+    else:
+        kind = "undisc-sweep"                 # one planner object: A, perturbed B, (C,) A again
+        m, more = gen_sweep(rng, tier)
     # msdm's result assembly raises StateActionIndexError when the initial distribution lists a
     # zero-probability state that reachability left out of the state list (reported separately;
     # a raise is not a "reports convergence" run): keep such entries out of the generated cases
     m["init"] = [[s, p] for s, p in m["init"] if F(p) != 0]
-    return {"mdp": m, "kind": kind, "max_iterations": rng.choice([200, 500, 1000]),
+    case = {"mdp": m, "kind": kind, "max_iterations": rng.choice([200, 500, 1000]),
             "explicit_lists": rng.random() < .2}
+    if more:
+        case["more"] = more
+    return case
 
 
 # ----------------------------------------------------------------------------
@@ -454,6 +606,14 @@ def prepare(case, res):
 # ----------------------------------------------------------------------------
 # violation search (only when a checker rejects): independent exact / LP oracles
 # ----------------------------------------------------------------------------
+NEAR_ONE_RULE = ("signature class: discounted CONTINUING MDP (no absorbing state in the state list) with "
+                 "1 - gamma <= 2^-11; every other value mismatch / raise keeps its ordinary signature")
+
+
+def near_one_continuing(mdpcase, absorbing):
+    g = F(mdpcase["gamma"])
+    return g < 1 and 1 - g <= F(1, 2**11) and not any(absorbing)
+
 def search_failing(case, res, d):
     n, nA, av, pi, g, h = d["n"], d["nA"], d["av"], d["pi"], d["g"], d["h"]
     for s in range(n):
@@ -473,15 +633,25 @@ def search_failing(case, res, d):
             return None
         vscale = max([F(1)] + [abs(x) for x in Vs])
         bound = d["tols"][0] / (1 - gam) + F(1, 10**6) * vscale
+        if near_one_continuing(case["mdp"], d["absorbing"]):
+            # the certificate (residual cap) already failed; a value off by more than 1e-5 relative is reported
+            # as the value mismatch it is (the proved bound 1e-3 is sufficient, not necessary)
+            bound = min(bound, F(1, 10**5) * vscale)
+        episodic_near_one = case.get("kind") == "discounted-episodic-near-one"
+        if episodic_near_one:
+            # by construction no action-value gap lies inside the improvement band: the values are those
+            # of an exactly optimal policy, known to the solver's accuracy; judged at 1e-7 relative
+            bound = F(1, 10**7) * vscale
         for s in range(n):
             if abs(h[s] - Vs[s]) > bound:
                 why = {"clause": "state value differs from the exact optimal discounted value",
                        "state_index": s, "reported": str(float(h[s])), "optimal": str(float(Vs[s])),
                        "relative_error": str(float(abs(h[s] - Vs[s]) / vscale)), "one_minus_gamma": str(1 - gam)}
-                if 1 - gam < F(1, 1000):
+                if near_one_continuing(case["mdp"], d["absorbing"]):
                     # discount rate very close to 1: the evaluation step solves the Gram (normal-equations)
                     # system, whose condition number is the square of the stacked system's ~ 1/(1-gamma)^2
                     why["signature"] = "C16:discounted:gamma-near-one:values-not-optimal"
+                    why["class_rule"] = NEAR_ONE_RULE
                     why["reported_gain"] = [str(float(x)) for x in g]
                 elif max(abs(x) for x in g) > F(1, 10**6) * d["scale"]:
                     # a discounted evaluation system forces gain 0: a clearly non-zero reported gain means
@@ -535,49 +705,72 @@ def run(ctx):
         cases = [gen_case(ctx.rng, tier) for _ in range(ncases)]
     jobs = max(1, min(ctx.jobs, 16))
     impl = ctx.impl("c16_impl.py", {"cases": cases}, shards=min(jobs, 4 if tier == "quick" else 12))["results"]
-    terms, meta = [], []
     stats = {"converged": 0, "not_converged": 0, "impl_raised": 0, "kinds": {}, "gammas": {},
              "undisc_nonconstant_gain": 0, "undisc_M_positive": 0, "undisc_nonzero_gain": 0,
              "undisc_with_terminal": 0, "undisc_pos_and_neg_rewards": 0, "stochastic_policy_rows": 0,
              "not_converged_by_kind": {}, "lp_agrees": 0, "lp_compared": 0,
              "undisc_support_tight_for_reported_bias": 0, "absorbing_vec_differs_from_model": 0,
-             "undisc_bias_tie_with_lower_gain_action": 0}
-    distinct, prepared = set(), {}
+             "undisc_bias_tie_with_lower_gain_action": 0, "planner_reuse_steps": 0,
+             "undisc_gain_below_minus_708": 0, "state_dependent_action_sets": 0}
+    # one judged item per planning step: (case index, step index, the case with "mdp" := that step's MDP, step result)
+    items = []
     for i, (case, res) in enumerate(zip(cases, impl)):
         stats["kinds"][case["kind"]] = stats["kinds"].get(case["kind"], 0) + 1
-        stats["gammas"][case["mdp"]["gamma"]] = stats["gammas"].get(case["mdp"]["gamma"], 0) + 1
         if "error" in res:
             ctx.violation("C16:impl-error:" + res["error"].split(":")[0], {"case": case, "error": res["error"]}, found=True)
             continue
+        steps = [(case["mdp"], res)] + list(zip(case.get("more", []), res.get("more", [])))
+        for j, (m, r) in enumerate(steps):
+            if "error" in r and "out" not in r:
+                ctx.violation("C16:impl-error:" + r["error"].split(":")[0], {"case": case, "step": j, "error": r["error"]}, found=True)
+                continue
+            items.append((i, j, dict(case, mdp=m), r))
+            stats["planner_reuse_steps"] += int(j > 0)
+    terms, meta, prepared = [], [], {}
+    distinct = set()
+    for k, (i, j, pc, res) in enumerate(items):
+        case = cases[i]
+        stats["gammas"][pc["mdp"]["gamma"]] = stats["gammas"].get(pc["mdp"]["gamma"], 0) + 1
         out = res["out"]
         if "error" in out:
             stats["impl_raised"] += 1
-            ctx.violation("C16:raises:" + out["error"].split(":")[0], {"case": case, "error": out["error"]}, found=True)
+            etype = out["error"].split(":")[0]
+            sl = res["state_list"]
+            absorbing_decl = [bool(pc["mdp"]["absorbing"][s_]) for s_ in sl]
+            detail = {"case": case, "step": j, "error": out["error"]}
+            sig = "C16:raises:" + etype
+            if etype == "UnboundLocalError" and near_one_continuing(pc["mdp"], res.get("absorbing_vec", absorbing_decl)):
+                # same root cause as the gamma-near-one value errors: the noisy non-zero gain keeps the gain
+                # improvement step switching for all max_iterations; bias_q is never bound
+                sig = "C16:discounted:gamma-near-one:raises:UnboundLocalError"
+                detail["class_rule"] = NEAR_ONE_RULE
+            ctx.violation(sig, detail, found=True)
             continue
         if not out["converged"]:
             stats["not_converged"] += 1
             stats["not_converged_by_kind"][case["kind"]] = stats["not_converged_by_kind"].get(case["kind"], 0) + 1
             continue
         stats["converged"] += 1
-        d = prepare(case, res)
-        prepared[i] = d
+        d = prepare(pc, res)
+        prepared[k] = d
         if d.get("nonfinite"):
             # a converged result with nan/inf entries: the policy cannot be "evaluated exactly"
             nanrow = any(x == "nan" for row in out["pi"] for x in row)
             ctx.violation("C16:policy:nan-row" if nanrow else "C16:nonfinite-result",
-                          {"case": case, "impl": out, "state_list": res["state_list"], "action_list": res["action_list"],
+                          {"case": case, "step": j, "impl": out, "state_list": res["state_list"], "action_list": res["action_list"],
                            "failing_clause": {"clause": "converged result has a policy row of NaNs (no action is both a gain- and a bias-maximiser at 1e-10)"
                                               if nanrow else "converged result has non-finite entries"}}, found=True)
             continue
         terms.append(d["term"])
-        meta.append(i)
+        meta.append(k)
     vals = ctx.coq(PRE, terms, shard=10 if tier == "quick" else 40)
     nchk = 0
-    for i, v in zip(meta, vals):
-        case, res, d = cases[i], impl[i], prepared[i]
+    for k, v in zip(meta, vals):
+        i, j, pc, res = items[k]
+        case, d = cases[i], prepared[k]
         out = res["out"]
         if isinstance(v, vlib.CoqError):
-            ctx.violation("C16:coq-evaluation-failed", {"case": case, "error": str(v)[:800]}, found=False)
+            ctx.violation("C16:coq-evaluation-failed", {"case": case, "step": j, "error": str(v)[:800]}, found=False)
             continue
         nchk += 1
         undisc = d["gamma"] == 1
@@ -588,24 +781,26 @@ def run(ctx):
             stats["undisc_support_tight_for_reported_bias"] += int(bool(tight))
         names = GCLAUSES if undisc else DCLAUSES
         failed = [c for c, okv in zip(names, v) if not okv]
-        if all(d["absorbing"]):
-            pass  # trivial: every state terminal
-        else:
-            distinct.add(vlib.structural_hash(case["mdp"]))
+        if not all(d["absorbing"]):       # non-trivial: at least one non-terminal state
+            distinct.add(vlib.structural_hash(pc["mdp"]))
+        stats["state_dependent_action_sets"] += int(len({tuple(r_) for r_ in d["av"]}) > 1)
         if undisc:
             gq = d["gq"]
             live = [gq[s] for s in range(d["n"]) if not d["absorbing"][s]]
             stats["undisc_nonconstant_gain"] += int(len(set(live)) > 1)
             stats["undisc_nonzero_gain"] += int(any(x != 0 for x in gq))
+            stats["undisc_gain_below_minus_708"] += int(any(x < -709 for x in gq))
             stats["undisc_M_positive"] += int(bool(d["M"]))
             stats["undisc_with_terminal"] += int(any(d["absorbing"]))
-            f = gen_mdp.features(case["mdp"])
+            f = gen_mdp.features(pc["mdp"])
             stats["undisc_pos_and_neg_rewards"] += int(f["neg_rewards"] and f["pos_rewards"])
             lp = res.get("lp", {})
             if lp.get("status") == 0:
                 stats["lp_compared"] += 1
                 stats["lp_agrees"] += int(all(abs(fr(x) - y) <= F(1, 10**6) * d["scale"] for x, y in zip(lp["g"], d["g"])))
         stats["stochastic_policy_rows"] += int(any(sum(1 for x in row if x > 0) > 1 for row in d["pi"]))
+        # drift counter: the model's absorbing set (computed from the arrays) vs msdm's absorbing_state_vec
+        stats["absorbing_vec_differs_from_model"] += int(list(res.get("absorbing_vec", [])) != list(d["absorbing"]))
         if undisc:
             # an available action OUTSIDE the support ties (1e-10) with the best reported action bias but has
             # a clearly lower action gain: only the gain filter of the result assembly keeps it out
@@ -621,14 +816,14 @@ def run(ctx):
                 bh, bg = max(qh[a] for a in av_a), max(qg[a] for a in av_a)
                 tie = tie or any(d["pi"][si][a] == 0 and abs(qh[a] - bh) <= F(1, 10**10) and qg[a] < bg - F(1, 10**6) for a in av_a)
             stats["undisc_bias_tie_with_lower_gain_action"] += int(tie)
-        # drift counter: the model's absorbing set (computed from the arrays) vs msdm's absorbing_state_vec
-        stats["absorbing_vec_differs_from_model"] += int(list(res.get("absorbing_vec", [])) != list(d["absorbing"]))
         if failed:
-            why = search_failing(case, res, d)
-            detail = {"case": case, "failed_clauses": failed, "impl": out,
+            why = search_failing(pc, res, d)
+            detail = {"case": case, "step": j, "failed_clauses": failed, "impl": out,
                       "state_list": res["state_list"], "action_list": res["action_list"],
-                      "certificate": {k: [str(x) for x in d[k]] for k in ("gq", "w", "hq") if k in d},
+                      "certificate": {kk: [str(x) for x in d[kk]] for kk in ("gq", "w", "hq") if kk in d},
                       "M": str(d.get("M"))}
+            if j > 0:
+                detail["scenario"] = "step %d of a sequence planned with ONE planner object (case['mdp'], then case['more'][...])" % j
             if why:
                 detail["failing_clause"] = why
                 ctx.violation(why.get("signature", "C16:%s" % why["clause"]), detail, found=True)
@@ -640,15 +835,16 @@ def run(ctx):
     ctx.coverage.update({
         "evaluations": nchk,
         "distinct_nontrivial": len(distinct),
-        "rule": "MDPs without dead ends, 1..%d states, 1..3 actions, state-dependent action sets, k/8 probabilities, zero entries, "
-                "duplicate rows (exact ties), explicit/implicit terminal states, multi-state initial distributions; 34%% discounted "
-                "(gamma in {1/2,9/10,19/20}, rewards of either sign), 66%% undiscounted: proper non-positive (gen_mdp), terminal states with "
-                "rewards of either sign, no terminal states (recurrent, unichain/multichain by chance), and block-structured multichain "
-                "(2-3 closed classes + transient states + optional terminal state), gain-class-choice 'farms' (closed classes of different gain entered for "
-                "equal / nearly equal / unrelated one-off rewards: exact bias ties across classes of different gain); discounted 'components' "
-                "(5-8 states in many disconnected components, paying self-loops, gamma in {9/10,19/20}) and 'near-one' (2-4 state continuing MDPs, "
-                "gamma in {1-2^-10, 1-2^-14, 1-2^-17, 1-10^-6}, residual tolerance capped so that the value bound is <= 1e-3 of the value scale); MultichainPolicyIteration(max_iterations in {200,500,1000}); "
+        "rule": "MDPs without dead ends, state-dependent action sets, k/8 probabilities, zero entries, duplicate rows (exact ties), explicit/implicit "
+                "terminal states, multi-state initial distributions.  Families: discounted (gen_mdp, 1..%d states, gamma in {1/2,9/10,19/20}, rewards of either sign); "
+                "discounted 'components' (5-8 states in many disconnected components, paying self-loops, gamma 9/10 or 19/20); discounted continuing 'near-one' "
+                "(2-4 states, gamma in {1-2^-10,1-2^-14,1-2^-17,1-10^-6}); discounted EPISODIC near-one (stochastic corridors of 8-16/24 cells, gamma in "
+                "{1-2^-20, 0.999995, 1-2^-17, 1-2^-14}, dyadic costs up to 1000, judged at 1e-7 relative); undiscounted: proper non-positive, terminal states with "
+                "rewards of either sign, recurrent (unichain/multichain by chance), block-structured multichain, gain-class-choice 'farms' (exact / near bias ties across "
+                "classes of different gain), 'large costs' (per-step costs -1200..-80, no terminal state, pure entry states lacking an action id), and 'sweeps' "
+                "(ONE planner object plans on A, a perturbation B with probabilities turned to/from 0, (C,) and A again; every step judged).  Residual tolerance = "
+                "improvement band, capped so that the proved value bound is <= 1e-3 of the value scale.  MultichainPolicyIteration(max_iterations in {200,500,1000}); "
                 "only converged=True runs are judged; distinct = structural hash of the MDP; non-trivial = at least one non-terminal state" % nmax,
-        "samples": [{"case": cases[meta[0]], "impl": impl[meta[0]]}] if meta else [],
-        "cases": len(cases), "certificate_checks": nchk, **stats,
+        "samples": [{"case": cases[items[meta[0]][0]], "impl": impl[items[meta[0]][0]]}] if meta else [],
+        "cases": len(cases), "planning_steps": len(items), "certificate_checks": nchk, **stats,
     })
